@@ -131,8 +131,15 @@ package generator
 //@   callarg fmt.Sprintf@2 2 typeName
 //@   callarg fmt.Sprintf@2 3 varName
 
-//@ func SQLTableName
+// regular expressions are not modelled: the snake-case conversion is an opaque function of the name
+//@ func ToSnakeCase
 //@   pure
+
+// the snake-case-plural convention
+//@ func SQLTableName
+//@   props C08
+//@   pure
+//@   ensures result == ToSnakeCase(string(name)) + "s"
 
 //@ func ToLowerFirst
 //@   pure
